@@ -403,7 +403,7 @@ def check_trusted_list(unit, found):
 # --------------------------------------------------------------------------------------------
 # Kani output parsing
 
-CHECK_RE = re.compile(r'^Check (\d+): (\S+)\n((?:[ \t]+- .*\n(?:(?![ \t]+- |Check \d+:|\n).*\n)*)+)', re.M)
+CHECK_RE = re.compile(r'^Check (\d+): (\S[^\n]*?)[ \t]*\n((?:[ \t]+- .*\n(?:(?![ \t]+- |Check \d+:|\n).*\n)*)+)', re.M)
 
 
 def parse_kani(out):
